@@ -477,3 +477,106 @@ def fold_literal_concat(fn):
 
     new = Join().visit(copy.deepcopy(fn.node))
     return replace(fn, node=ast.fix_missing_locations(new)) if changed[0] else fn
+
+
+# ---------------------------------------------------------------------------------------------------------------------------------
+# writer calls of the Workspace: `self._io_call(H5Writer.f, a, b, mode=...)`, directly, through a forwarding method
+# (`def _w(self, fun, *args, **kw): return self._io_call(fun, *args, mode="r+", **kw)`), through a wrapper of one writer function
+# (`def _del(self, uid, kind, **kw): self._io_call(H5Writer.remove_entity, uid, kind, ...)`), or with the function and its arguments
+# chosen per branch into locals (`fun = H5Writer.f; args = (a, b)` ... `self._io_call(fun, *args, ...)`).
+def writer_calls_of(call, fn_node, K, depth=0):
+    """[(writer function text, [positional argument exprs])] that the call `call` (inside `fn_node`, a method of class K) performs"""
+    import copy
+
+    f = call.func
+    if not (isinstance(f, ast.Attribute) and isinstance(f.value, ast.Name) and f.value.id in ("self", "cls")) or depth > 3:
+        return []
+    if f.attr == "_io_call":
+        if not call.args:
+            return []
+        first, rest = call.args[0], list(call.args[1:])
+        star = [a for a in rest if isinstance(a, ast.Starred)]
+        if not star and not (isinstance(first, ast.Name) and _assigned_blocks(fn_node, first.id)):
+            return [(unparse(first), rest)]
+        # function and / or arguments held in locals: one candidate per block that binds them together
+        out = []
+        fname = first.id if isinstance(first, ast.Name) else None
+        aname = star[0].value.id if len(star) == 1 and isinstance(star[0].value, ast.Name) else None
+        fblocks = _assigned_blocks(fn_node, fname) if fname else {}
+        ablocks = _assigned_blocks(fn_node, aname) if aname else {}
+        if star and aname is None:
+            return []
+        if not fblocks and not ablocks:
+            return [(unparse(first), rest)]  # parameters of a forwarding method: bound by the caller of that method
+        keys = set(fblocks) | set(ablocks) if (fblocks and ablocks) else (set(fblocks) or set(ablocks))
+        for b in keys:
+            fv = fblocks.get(b) if fblocks else first
+            av = ablocks.get(b) if ablocks else None
+            if fv is None or (ablocks and av is None):
+                continue  # bound apart: not paired
+            args = []
+            for a in rest:
+                if isinstance(a, ast.Starred):
+                    if not isinstance(av, (ast.Tuple, ast.List)):
+                        args = None
+                        break
+                    args += list(av.elts)
+                else:
+                    args.append(a)
+            if args is not None:
+                out.append((unparse(fv), args))
+        return out
+    m = K.lookup(f.attr) if K is not None else None
+    if not m or m[1] != "method":
+        return []
+    target = m[2]
+    a = target.node.args
+    params = [x.arg for x in a.posonlyargs + a.args]
+    if params and params[0] in ("self", "cls"):
+        params = params[1:]
+    if any(isinstance(x, ast.Starred) for x in call.args):
+        return []
+    bound = dict(zip(params, call.args))
+    extra = list(call.args[len(params):])
+    for k in call.keywords:
+        if k.arg is not None and k.arg in params:
+            bound[k.arg] = k.value
+    out = []
+    for inner in ast.walk(target.node):
+        if not isinstance(inner, ast.Call):
+            continue
+        for fname, args in writer_calls_of(inner, target.node, K, depth + 1):
+            if fname in bound:
+                fname = unparse(bound[fname])
+            elif fname in params:
+                continue
+            new = []
+            for x in args:
+                if isinstance(x, ast.Starred) and isinstance(x.value, ast.Name) and a.vararg is not None and x.value.id == a.vararg.arg:
+                    new += extra
+                elif isinstance(x, ast.Name) and x.id in bound:
+                    new.append(bound[x.id])
+                elif isinstance(x, ast.Name) and x.id in params:
+                    new.append(ast.Constant(value=None))  # a defaulted parameter the caller did not pass
+                else:
+                    new.append(copy.deepcopy(x))
+            out.append((fname, new))
+    return out
+
+
+def _assigned_blocks(fn_node, name):
+    """{id of the statement list: value} for every simple assignment `name = value` / `name: T = value` in the function, keyed by the
+    block (body list) that holds the statement"""
+    out = {}
+    if name is None:
+        return out
+    for n in ast.walk(fn_node):
+        for fld in ("body", "orelse", "finalbody"):
+            blk = getattr(n, fld, None)
+            if isinstance(blk, list):
+                for s in blk:
+                    if isinstance(s, (ast.Assign, ast.AnnAssign)) and getattr(s, "value", None) is not None:
+                        tgs = s.targets if isinstance(s, ast.Assign) else [s.target]
+                        if any(isinstance(t, ast.Name) and t.id == name for t in tgs):
+                            out[id(blk)] = s.value
+    return out
